@@ -207,12 +207,19 @@ def d2_targets(chk: Check) -> None:
     mw = prog.func("Merger.merge_with")
     chk.analysed(mw)
     r = mw.params()[1]
-    loops = [n for n in walk_local(mw.node) if isinstance(n, ast.For)
-             and "_get_merge_target_nodes" in src(n.iter)]
+    from sa.coords import reaching_def as _rd
+    loops = []
+    for n in walk_local(mw.node):
+        if not isinstance(n, ast.For):
+            continue
+        it = n.iter
+        if isinstance(it, ast.Name):
+            it = _rd(it.id, n) or it
+        if "_get_merge_target_nodes" in src(it):
+            loops.append((n, it))
     if len(loops) != 1:
         raise AnalysisError("merge_with target loop not found")
-    loop = loops[0]
-    call = loop.iter
+    loop, call = loops[0]
     ipoint = src(call.args[0]) if isinstance(call, ast.Call) and call.args \
         else "?"
     proc_v = src(call.args[1]) if isinstance(call, ast.Call) and \
